@@ -131,7 +131,7 @@ func coqOp(o Op) string {
 		return "OReq RqStopCoupling " + io
 	case "storeraw":
 		return fmt.Sprintf("OReq (RqStoreRaw %s) %s", lib.Z(int64(o.N)), io)
-	case "mix":
+	case "mix", "mix2":
 		return fmt.Sprintf("OReq (RqMix %s %s) %s", zl(o.Idx), lib.Z(int64(o.Nfrac)), io)
 	}
 	return "OStop"
@@ -142,6 +142,25 @@ type env struct {
 	source  string
 	tmp     string
 	cleanup []string
+}
+
+// longBase makes a directory whose path is so long that <base>/YYYYMMDD/NNNN (14 more characters) still fits below
+// PATH_MAX = 4096 but <that>/YYYYMMDD_runNNNN_experiment_state.txt (38 more) does not (ENAMETOOLONG, also for root).
+func (e *env) longBase() string {
+	const target = 4060
+	base := filepath.Join(e.tmp, "long")
+	for len(base) < target {
+		n := target - len(base) - 1
+		if n > 200 {
+			n = 200
+		}
+		if n < 1 {
+			break
+		}
+		base = filepath.Join(base, strings.Repeat("d", n))
+	}
+	os.MkdirAll(base, 0o755)
+	return base
 }
 
 func (e *env) do(o Op) (call string, class string) {
@@ -197,7 +216,10 @@ func (e *env) do(o Op) (call string, class string) {
 			cfg.Request = "START"
 			cfg.WriteLJH22 = o.Ljh
 			cfg.WriteOFF = o.Off
-			if o.PathO {
+			if o.PathO && o.Io {
+				// the run directory can be made, the experiment-state file cannot: only its name exceeds PATH_MAX
+				cfg.Path = e.longBase()
+			} else if o.PathO {
 				cfg.Path = filepath.Join(e.tmp, "data")
 			} else {
 				cfg.Path = filepath.Join(e.tmp, "regular_file", "sub") // the parent is a regular file
@@ -274,7 +296,7 @@ func (e *env) do(o Op) (call string, class string) {
 			e.cleanup = append(e.cleanup, name, strings.Replace(name, ".npz", "_inprogress.npz", 1))
 		}
 		return "req", okerr(err)
-	case "mix":
+	case "mix", "mix2":
 		fr := make([]float64, o.Nfrac)
 		return "req", okerr(sc.ConfigureMixFraction(&dastard.MixFractionObject{ChannelIndices: o.Idx, MixFractions: fr}, &okb))
 	}
@@ -337,6 +359,22 @@ func runOnce(c Case, watchdog time.Duration) (outcome, error) {
 						break
 					}
 				}
+				continue
+			}
+			if o.Op == "mix2" && c.Source == "lancero" && really() {
+				// two connections: two mix requests outstanding at the same moment.  Keep the core loop parked at
+				// core:before-select until the block assembler holds a finished block (it then serves no mix request),
+				// queue both requests, and only then let the core loop go on.
+				for i := 0; i < 80 && !s.ParkedAt("core:before-select"); i++ {
+					if !s.Step(func(n string) bool { return strings.HasPrefix(n, "core:") && n != "core:before-select" }) &&
+						!s.WaitActivity(20*time.Millisecond) {
+						break
+					}
+				}
+				time.Sleep(120 * time.Millisecond) // two reader ticks: the assembler is blocked handing over its block
+				s.Go("req", func() string { _, cls := e.do(o); return cls })
+				s.Go("req", func() string { _, cls := e.do(o); return cls })
+				time.Sleep(20 * time.Millisecond)
 				continue
 			}
 			if o.Op == "dying" {
@@ -429,6 +467,9 @@ func runOnce(c Case, watchdog time.Duration) (outcome, error) {
 func render(c Case, out outcome, crashed bool) string {
 	var ops []string
 	for _, o := range c.Ops {
+		if o.Op == "mix2" && c.Source == "lancero" {
+			ops = append(ops, coqOp(o)) // two calls (the model serves them one after the other)
+		}
 		if o.Op != "settle" && o.Op != "dying" {
 			ops = append(ops, coqOp(o))
 		}
